@@ -411,7 +411,20 @@ func (ex *Exec) iteValue(c *Term, a, b Value) Value {
 			}
 		}
 		unsupported("merge of different pointers")
+	case *SymSliceV:
+		switch y := b.(type) {
+		case *SymSliceV:
+			return ex.mergeSym(c, x, y)
+		case *SliceV:
+			if ex.curMergeB != nil {
+				return ex.mergeSym(c, x, ex.toSym(ex.curMergeB, y, x.Elem))
+			}
+		}
+		unsupported("merge of symbolic slice with %T", b)
 	case *SliceV:
+		if ys, isSym := b.(*SymSliceV); isSym && ex.curMergeA != nil {
+			return ex.mergeSym(c, ex.toSym(ex.curMergeA, x, ys.Elem), ys)
+		}
 		y, ok := b.(*SliceV)
 		if ok && *x == *y {
 			return x
@@ -437,6 +450,9 @@ func (ex *Exec) iteValue(c *Term, a, b Value) Value {
 		}
 		return &StrV{T: ex.ts.Ite(c, ex.strTerm(x), ex.strTerm(y))}
 	case *OpaqueV:
+		if yi, isI := b.(*IfaceV); isI && yi.Nil && x.IsNil != nil {
+			return &OpaqueV{What: x.What, IsNil: ex.ts.Ite(c, x.IsNil, ex.ts.True())}
+		}
 		y, ok := b.(*OpaqueV)
 		if !ok {
 			unsupported("merge of opaque with %T", b)
@@ -453,6 +469,9 @@ func (ex *Exec) iteValue(c *Term, a, b Value) Value {
 		}
 		unsupported("merge of different function values")
 	case *IfaceV:
+		if yo, isO := b.(*OpaqueV); isO && x.Nil && yo.IsNil != nil {
+			return &OpaqueV{What: yo.What, IsNil: ex.ts.Ite(c, ex.ts.True(), yo.IsNil)}
+		}
 		y, ok := b.(*IfaceV)
 		if ok && x.Nil && y.Nil {
 			return x
